@@ -11,6 +11,7 @@ import (
 	"os"
 	"path/filepath"
 	"strings"
+	"sync"
 	"testing"
 	"time"
 
@@ -27,6 +28,10 @@ type c19Scenario struct {
 	TimeoutMs int    `json:"timeoutMs"`
 	Via       string `json:"via"` // exec | sensor | fanGetPwm | fanGetRpm | fanSetPwm
 	Code      int    `json:"code,omitempty"`
+	// Parallel >= 2: that many callers run the same executable at the same time (the RPM monitor, the
+	// control loop and the statistics collectors do call one fan's / sensor's command concurrently);
+	// every one of them has to come back within the bound
+	Parallel int `json:"parallel,omitempty"`
 }
 
 var c19Success = []string{"ok-plain", "ok-empty", "ok-whitespace", "ok-big", "ok-nonnumeric", "ok-float"}
@@ -45,6 +50,9 @@ func genC19(t *rapid.T) c19Scenario {
 	sc.Via = rapid.SampledFrom([]string{"exec", "exec", "exec", "exec", "sensor", "fanGetPwm", "fanGetRpm", "fanSetPwm"}).Draw(t, "via")
 	if sc.Via != "exec" {
 		sc.TimeoutMs = 2000 // fixed in the backends
+	}
+	if sc.Mode != "vanishing" && sc.Mode != "endless-output" && rapid.IntRange(0, 3).Draw(t, "parallel") == 0 {
+		sc.Parallel = rapid.IntRange(2, 4).Draw(t, "callers")
 	}
 	return sc
 }
@@ -196,7 +204,28 @@ func runC19(t *testing.T, sc c19Scenario) verdict {
 		if sc.Mode == "vanishing" {
 			go func() { time.Sleep(time.Duration(50+attempt*200) * time.Microsecond); os.Remove(path) }()
 		}
-		r = c19Call(sc, path)
+		if sc.Parallel >= 2 {
+			rs := make([]c19Result, sc.Parallel)
+			var wg sync.WaitGroup
+			for i := range rs {
+				wg.Add(1)
+				go func() { defer wg.Done(); rs[i] = c19Call(sc, path) }()
+			}
+			wg.Wait()
+			r = rs[0]
+			for _, x := range rs[1:] { // judged: the slowest caller; a panic or a missing error of any caller
+				if x.Elapsed > r.Elapsed {
+					x.Panic, r = x.Panic+r.Panic, x
+				} else {
+					r.Panic += x.Panic
+				}
+				if (x.Err == nil) != (r.Err == nil) && x.Err == nil {
+					r.Err, r.Out = nil, x.Out
+				}
+			}
+		} else {
+			r = c19Call(sc, path)
+		}
 		if r.Elapsed <= bound {
 			break
 		}
@@ -259,7 +288,7 @@ func runC19(t *testing.T, sc c19Scenario) verdict {
 			}
 		}
 	}
-	return verdict{vs: vs, nontrivial: !success, labels: []string{"mode:" + sc.Mode, "via:" + sc.Via},
+	return verdict{vs: vs, nontrivial: !success, labels: []string{"mode:" + sc.Mode, "via:" + sc.Via, fmt.Sprintf("callers:%d", max(1, sc.Parallel))},
 		outcome: map[string]any{"elapsedMs": r.Elapsed.Milliseconds(), "err": fmt.Sprint(r.Err), "out": clip(r.Out), "panic": r.Panic}}
 }
 
